@@ -431,3 +431,23 @@ Definition sim_run (c : sim_case) : obsv :=
 Definition sim_final (c : sim_case) : sim :=
   let '(cfg, keys, ops) := c in snd (sim_ops (fst (fst (sim_init cfg keys))) ops).
 Definition run_case := sim_run.
+
+(* ---------- digest of an observation ----------
+   Parsing a 400 kB observation literal costs coqc seconds while evaluating the model costs
+   milliseconds, so the correspondence compares a 61-bit polynomial digest of the model's
+   observation with the digest of the implementation's (computed by gen/sim_gen.py over the same
+   token stream: OZ z -> 1, z; OL l -> 2, length l, elements); on a digest mismatch the full
+   observations are compared to locate the first difference. *)
+Definition hmix (h t : Z) : Z := (h * 1000003 + t + 12345) mod 2305843009213693951.
+Fixpoint obs_hash_go (h : Z) (o : obsv) {struct o} : Z :=
+  match o with
+  | OZ z => hmix (hmix h 1) z
+  | OL l =>
+      (fix go (h : Z) (l : list obsv) {struct l} : Z :=
+         match l with
+         | [] => h
+         | x :: l' => go (obs_hash_go h x) l'
+         end) (hmix (hmix h 2) (Z.of_nat (length l))) l
+  end.
+Definition obs_hash (o : obsv) : Z := obs_hash_go 7 o.
+Definition sim_run_hash (c : sim_case) : obsv := OZ (obs_hash (sim_run c)).
